@@ -514,3 +514,15 @@ package tsm1
 //@   call BitWriter.WriteBits#5 requires significant_bits_fit: sigbits == 64 || (vDelta >> trailing) >> sigbits == 0
 //@   call BitWriter.WriteBits#5 requires nothing_cut_off_below: (vDelta >> trailing) << trailing == vDelta
 //@   call BitWriter.WriteBits#2 requires reused_window_loses_nothing: (vDelta >> s.trailing) << s.trailing == vDelta && (s.leading == 0 || vDelta >> (64 - s.leading) == 0)
+
+// the batch encoder packs the same fields by hand; the check sits at the first buffer growth after the clamp
+//@ func FloatArrayEncodeAll
+//@   props C13
+//@   nosafety
+//@   arith bv
+//@   call append#2 requires clamped_leading_fits_its_5_bits: leading < 32
+//@   call append#5 requires leading_fits_its_5_bits: leading < 32
+//@   call append#6 requires sigbits_in_range: sigbits >= 1 && sigbits <= 64 && sigbits == 64 - leading - trailing
+//@   call append#6 requires significant_bits_fit: sigbits == 64 || (vDelta >> trailing) >> sigbits == 0
+//@   call append#6 requires nothing_cut_off_below: (vDelta >> trailing) << trailing == vDelta
+//@   call append#3 requires reused_window_loses_nothing: (vDelta >> prevTrailing) << prevTrailing == vDelta && (prevLeading == 0 || vDelta >> (64 - prevLeading) == 0)
